@@ -21,3 +21,21 @@ Proof. intros s s' HI H. rewrite (clone_storage_spec s HI) in H. injection H as 
 
 Example C13_nonvacuous : clone_storage ex4 = Some ex4.
 Proof. exact (clone_storage_spec ex4 ex4_inv). Qed.
+
+(* ---------------------------------------------------------------- run level *)
+From Gecs Require Import Query World Borrow Run WorldInv.
+
+(** World::clone in any reachable state: either a component's Clone panicked (no new world, the existing
+    ones untouched), or the new world is, storage by storage (slots, handles, components, versions,
+    pending events, capacity), the state of the cloned world, every existing world is untouched and the
+    current world stays current.  Every operation replaces only the world it acts on, so afterwards the
+    two evolve independently. *)
+Theorem C13_clone_yields_the_same_state : forall cfg d qs st st' obs, RInv d st ->
+  step cfg d qs st OClone = Some (st', obs) ->
+  match cur_world st with
+  | None => st' = st
+  | Some w =>
+      (obs = [2%N; pcode PClone] /\ worlds st' = worlds st) \/
+      (obs = [1%N; N.of_nat (length (worlds st))] /\ worlds st' = worlds st ++ [Some w] /\ cur st' = cur st)
+  end.
+Proof. exact step_clone_spec. Qed.
